@@ -158,9 +158,18 @@ func Main(args []string) int {
 			}
 		}
 	}
+	for counter, min := range schistMins[*prop] {
+		run.RequireMin(counter, min)
+	}
 	run.Assume("state transition driven through the exported Chain.UpdateState block by block; networking, consensus and the event database are not running")
 	run.Assume("github.com/0chain/common (MPT, statecache, currency) is exercised but lives outside the repository")
 	return run.Finish()
+}
+
+// schistMins: monitor counters that must reach a minimum for a conclusive run of a property (directed scenarios that did not run
+// would otherwise leave a quiet but empty check).
+var schistMins = map[string]map[string]int64{
+	"C48": {"gf_stored_values_judged": 300},
 }
 
 func firstPanicLine(log string) string {
@@ -201,7 +210,11 @@ func childMain(prop, tier string, idx, nh, nl int) (code int) {
 	if prop == "C07" {
 		o.Shadow = true
 	}
-	w := world.New(world.Options{Seed: seed*1000 + uint64(idx)})
+	wo := world.Options{Seed: seed*1000 + uint64(idx)}
+	if prop == "C22" && idx%2 == 1 {
+		wo.NumSharders, wo.NumMiners = 5, 6 // more recipients than a tiny fee part has units
+	}
+	w := world.New(wo)
 	defer w.Close()
 	runs := map[string]*mon.Run{prop: run}
 	ops := catalogue()
